@@ -22,6 +22,7 @@ import (
 // goroutine still parked when the function under verification returns is a leak (chan/drain).
 
 type chanObj struct {
+	native func() (Val, bool) // driver-supplied producer (next value, ok); nil for real goroutines
 	id     int64
 	elem   types.Type
 	closed bool
@@ -212,6 +213,20 @@ func (x *Exec) doRecv(st *State, ins *ssa.UnOp) {
 	x.needUnwind("channel receive")
 	ch := x.chanOf(x.get(st, ins.X))
 	s := x.sched()
+	if ch.native != nil {
+		v, ok := ch.native()
+		if !ok {
+			v = zeroVal(ch.elem)
+		} else {
+			ch.recvs++
+		}
+		if ins.CommaOk {
+			x.set(st, ins, VTuple{v, VT{term.B(ok), types.Typ[types.Bool]}})
+		} else {
+			x.set(st, ins, v)
+		}
+		return
+	}
 	for ch.sender == nil && !ch.closed {
 		// let other goroutines run until one serves this channel
 		progressed := false
@@ -282,3 +297,23 @@ func (x *Exec) DrainCheck(st *State) []string {
 
 func (x *Exec) lockAcquired(st *State, m *T)                {}
 func (x *Exec) lockReleased(st *State, m *T, pos token.Pos) {}
+
+// NativeChan creates a channel fed by a driver-supplied generator (used to hand a symbolic byte
+// stream to code that consumes a <-chan). recvs reports how many values were taken.
+func (c *Conc) NativeChan(elem types.Type, vals []Val) (ch Val, taken func() int) {
+	s := c.X.sched()
+	ref := c.X.allocRef(c.St)
+	id, _ := ref.Int64()
+	i := 0
+	co := &chanObj{id: id, elem: elem}
+	co.native = func() (Val, bool) {
+		if i >= len(vals) {
+			return nil, false
+		}
+		v := vals[i]
+		i++
+		return v, true
+	}
+	s.chans[id] = co
+	return VT{ref, types.NewChan(types.RecvOnly, elem)}, func() int { return i }
+}
